@@ -11,6 +11,14 @@ ORACLE `cands : data → pending → List (point × loss)`: the candidate (point
 `_fill_stack` visits them (repeated `argmax`).  Points are abstract ids (`Nat`), `inB` is `inside_bounds`, values `V` and losses
 `L` are abstract; `inf : L` is the loss improvement the corner points are queued with.
 
+`ask` follows the code AFTER the two repairs of `ask(n, tell_pending=False)` (commits e806eb2 and 844d031 of /repo):
+* the clean-up of a non-committing `ask` that returns discards from `pending_points` only those returned points that were NOT
+  pending when `ask` was called (`was_pending`), so a point that was pending before stays pending (`uncommit`);
+* a non-committing `ask` whose refill loop raises (`tooFew`: the `ValueError` of `_fill_stack`) puts the stack entries it held
+  at the start back, sets `pending_points` back to `was_pending`, and re-raises (`unwind`).
+A committing `ask` is unchanged (also when it raises: marks and shortened stack stay).  `diverge` - a round of the loop that
+yields no point, which the real `while` repeats for ever - is not an exception and is left as it was.
+
 Core Lean only (no Mathlib).
 -/
 namespace L2D
@@ -141,21 +149,34 @@ def askLoop (c : Cfg L) (cands : Oracle V L) : Nat → Nat → State V L → Lis
         let s2 := tellPendingAll c s1 (new.take (nl + 1))
         askLoop c cands fuel (nl + 1 - new.length) s2 (pts ++ new)
 
-/-- everything `ask` does before the `if not tell_pending` block: the state and the complete `points`/`loss_improvements` -/
+/-- everything `ask` does before the `if not tell_pending` / `except` blocks (the marks of `points[:n]` and the `while` loop
+inside the `try`): the state and the complete `points`/`loss_improvements` -/
 def askCore (c : Cfg L) (cands : Oracle V L) (s : State V L) (n : Nat) : State V L × Outcome L :=
   let s1 := tellPendingAll c s (s.stack.take n)
   askLoop c cands (n - s.stack.length) (n - s.stack.length) s1 s.stack
 
-/-- the `if not tell_pending` block: `_stack` rewritten with `zip(points[:stack_size], loss_improvements)`, `points[:n]`
-discarded from the pending points -/
-def uncommit (c : Cfg L) (s : State V L) (pts : List (Nat × L)) (n : Nat) : State V L :=
+/-- the `if not tell_pending` block of an `ask` that returns: `_stack` rewritten with
+`zip(points[:stack_size], loss_improvements)`; of `points[:n]` those that were NOT pending when `ask` was called
+(`pd0` is `was_pending = set(self.pending_points)`, taken before the first mark) are discarded from the pending points.
+A point that was pending before the call stays pending. -/
+def uncommit (c : Cfg L) (s : State V L) (pts : List (Nat × L)) (n : Nat) (pd0 : List Nat) : State V L :=
   { s with stack := ofPairs (pts.take c.stackSize),
-           pending := (pts.take n).foldl (fun pd e => pdiscard pd e.1) s.pending }
+           pending := (pts.take n).foldl (fun pd e => if pd0.contains e.1 then pd else pdiscard pd e.1) s.pending }
 
-/-- `ask(n, tell_pending)`; an exception leaves the state as it was when it was raised -/
+/-- the `except Exception:` block of a non-committing `ask` (`s0` is the state `ask` was called with, `s` the state in which
+`_fill_stack` raised): `_stack = OrderedDict(zip(points[:n_stack], loss_improvements[:n_stack]))` - `points` and
+`loss_improvements` start as the keys and values of the stack and only ever grow at the end, so their first `n_stack` entries
+are the entries of the original stack, in order - and `pending_points = was_pending`.  `data` is never touched. -/
+def unwind (s0 s : State V L) : State V L :=
+  { s with stack := ofPairs s0.stack, pending := s0.pending }
+
+/-- `ask(n, tell_pending)`.  A committing `ask` that raises leaves the state as it was when the exception was raised (the
+stack entries taken so far are pending); a non-committing `ask` that raises takes its marks back (`unwind`) and re-raises.
+`diverge` is non-termination of the real loop, not an exception: the state is the one the loop is stuck in. -/
 def ask (c : Cfg L) (cands : Oracle V L) (s : State V L) (n : Nat) (commit : Bool) : State V L × Outcome L :=
   match askCore c cands s n with
-  | (s2, .ok pts) => if commit then (s2, .ok (pts.take n)) else (uncommit c s2 pts n, .ok (pts.take n))
+  | (s2, .ok pts) => if commit then (s2, .ok (pts.take n)) else (uncommit c s2 pts n s.pending, .ok (pts.take n))
+  | (s2, .tooFew) => if commit then (s2, .tooFew) else (unwind s s2, .tooFew)
   | r => r
 
 /-- `tell_many(xs, ys)` (inherited): one `tell` per pair, in order -/
